@@ -66,3 +66,471 @@ Example getter_example_same_origin :
   /\ getter_get parse o "https://cdn.example/a-1.tgz" = GReq None
   /\ getter_get parse (apply_opt o (OPassAll true)) "https://cdn.example/a-1.tgz" = GReq (Some (Cred "u" "p" "https://r.example/charts")).
 Proof. vm_compute. repeat split. Qed.
+
+(* ================================================================== call paths *)
+
+Lemma same_origin_refl u : same_origin u u = true.
+Proof. unfold same_origin. rewrite !String.eqb_refl. reflexivity. Qed.
+
+Lemma same_origin_sym u v : same_origin u v = true -> same_origin v u = true.
+Proof. rewrite !same_origin_true. intros [-> ->]. auto. Qed.
+
+Lemma same_origin_trans u v w : same_origin u v = true -> same_origin v w = true -> same_origin u w = true.
+Proof. rewrite !same_origin_true. intros [-> ->] [-> ->]. auto. Qed.
+
+Section Scope.
+  Variable parse : string -> option url.
+  Variable url_equal : string -> string -> bool.
+  Variable lookup : entry -> string -> string -> option string.
+  Variable index_url : string -> option string.
+  Variable find_in : string -> string -> string -> option string.
+  Variable dep_url : entry -> string -> string -> string -> option string.
+
+  (* the two strings name URLs of the same scheme and host(:port) *)
+  Definition so (a b : string) : Prop :=
+    exists ua ub, parse a = Some ua /\ parse b = Some ub /\ same_origin ua ub = true.
+
+  Lemma so_trans a b c : so a b -> so b c -> so a c.
+  Proof.
+    intros (ua & ub & Ea & Eb & H1) (ub' & uc & Eb' & Ec & H2).
+    rewrite Eb in Eb'. injection Eb' as <-. exists ua, uc. repeat split; auto.
+    eapply same_origin_trans; eauto.
+  Qed.
+
+  Lemma so_refl a u : parse a = Some u -> so a a.
+  Proof. intro E. exists u, u. repeat split; auto. apply same_origin_refl. Qed.
+
+  Definition has_c (o : gopts) : bool := nonempty (g_user o) && nonempty (g_pass o).
+  Definition cred_of (o : gopts) : cred := Cred (g_user o) (g_pass o) (g_src o).
+  Definition abs3 (u : url) : bool := nonempty (u_scheme u) && nonempty (u_host u) && nonempty (u_path u).
+
+  (* what one getter call guarantees, in terms of [so] *)
+  Lemma getter_get_so o href c :
+    getter_get parse o href = GReq (Some c) ->
+    c = cred_of o /\ has_c o = true /\ (g_pass_all o = true \/ so (g_url o) href).
+  Proof.
+    intro H. apply getter_get_auth_iff in H as (u1 & u2 & E1 & E2 & Ho & Hu & Hp & ->).
+    split; [reflexivity|]. split.
+    - unfold has_c. apply nonempty_true in Hu. apply nonempty_true in Hp. rewrite Hu, Hp. reflexivity.
+    - destruct Ho as [Ho|Ho]; [left; exact Ho|right]. exists u1, u2. repeat split; auto. apply same_origin_true. exact Ho.
+  Qed.
+
+  Lemma scan_In u repos rc : scan url_equal u repos = Some rc -> In rc repos.
+  Proof.
+    induction repos as [|r t IH]; simpl; [discriminate|].
+    destruct (existsb (url_equal u) (index_urls r)); [intro H; injection H as <-; auto|auto].
+  Qed.
+
+  Lemma pick_In n repos rc : pick_by_name n repos = Some rc -> In rc repos.
+  Proof.
+    induction repos as [|r t IH]; simpl; [discriminate|].
+    destruct (String.eqb (e_name r) n); [|auto].
+    destruct (nonempty (e_url r)); [intro H; injection H as <-; auto|discriminate].
+  Qed.
+
+  Lemma find_repo_In d repos cr : find_repo url_equal d repos = Some cr -> In cr repos /\ url_equal d (e_url cr) = true.
+  Proof.
+    induction repos as [|r t IH]; simpl; [discriminate|].
+    destruct (url_equal d (e_url r)) eqn:E; [intro H; injection H as <-; auto|].
+    intro H. apply IH in H as [H1 H2]. auto.
+  Qed.
+
+  (* effective options after the tail ResolveChartVersion appends for a repository entry *)
+  Lemma apply_entry_tail o rc :
+    apply_opts o ((OUrl (e_url rc) :: OOther :: entry_cred_opts rc) ++ [OOther]) =
+    if has_creds rc then mkOpts (e_url rc) (e_user rc) (e_pass rc) (e_url rc) (e_pass_all rc)
+    else mkOpts (e_url rc) (g_user o) (g_pass o) (g_src o) (g_pass_all o).
+  Proof. unfold entry_cred_opts. destruct (has_creds rc); reflexivity. Qed.
+
+  (* the state of the getter during a DownloadTo, by the branch ResolveChartVersion took *)
+  Inductive branch (o0 : gopts) (ref : string) (repos : list entry) (u : url) (st : gopts) : Prop :=
+  | BNoOwner : parse ref = Some u -> abs3 u = true ->
+               st = mkOpts ref (g_user o0) (g_pass o0) (g_src o0) (g_pass_all o0) -> branch o0 ref repos u st
+  | BOwnCreds rc : In rc repos -> has_creds rc = true ->
+               st = mkOpts (e_url rc) (e_user rc) (e_pass rc) (e_url rc) (e_pass_all rc) -> branch o0 ref repos u st
+  | BOwnerNoCreds rc : parse ref = Some u -> abs3 u = true -> In rc repos ->
+               st = mkOpts (e_url rc) (g_user o0) (g_pass o0) (g_src o0) (g_pass_all o0) -> branch o0 ref repos u st
+  | BNamedNoCreds u0 rn cn rc : parse ref = Some u0 -> abs3 u0 = false ->
+               split_slash (u_path u0) = Some (rn, cn) -> pick_by_name rn repos = Some rc ->
+               st = mkOpts (e_url rc) (g_user o0) (g_pass o0) (g_src o0) (g_pass_all o0) -> branch o0 ref repos u st.
+
+  Lemma resolve_branch copts ref ver repos u opts :
+    resolve parse url_equal lookup copts ref ver repos = ROk u opts ->
+    branch (apply_opts gopts0 copts) ref repos u (apply_opts gopts0 (opts ++ [OOther])).
+  Proof.
+    unfold resolve. destruct (parse ref) as [u0|] eqn:Ep; [|discriminate].
+    fold (abs3 u0). destruct (abs3 u0) eqn:Ea.
+    - destruct (scan url_equal ref repos) as [rc|] eqn:Es.
+      + intro H. injection H as <- <-. apply scan_In in Es.
+        rewrite <- app_assoc, apply_opts_app, apply_entry_tail.
+        destruct (has_creds rc) eqn:Ec.
+        * eapply BOwnCreds; eauto.
+        * eapply BOwnerNoCreds; eauto.
+      + intro H. injection H as <- <-. rewrite <- app_assoc, apply_opts_app. simpl.
+        eapply BNoOwner; eauto.
+    - destruct (split_slash (u_path u0)) as [[rn cn]|] eqn:Ess; [|discriminate].
+      destruct (pick_by_name rn repos) as [rc|] eqn:Epk; [|discriminate].
+      destruct (parse (e_url rc)); [|discriminate].
+      destruct (lookup rc cn ver) as [resolved|]; [|discriminate].
+      destruct (parse resolved) as [ru|]; [|discriminate].
+      intro H. injection H as <- <-.
+      rewrite <- app_assoc, apply_opts_app, apply_entry_tail.
+      destruct (has_creds rc) eqn:Ec.
+      + eapply BOwnCreds; eauto. eapply pick_In; eauto.
+      + eapply BNamedNoCreds; eauto.
+  Qed.
+
+  (* the requests of one DownloadTo are made with one getter state, to u.String() and to
+     u.String() + ".prov" *)
+  Lemma download_to_requests copts ref ver repos wp ok href c :
+    In (href, GReq (Some c)) (download_to parse url_equal lookup copts ref ver repos wp ok) ->
+    exists u opts, resolve parse url_equal lookup copts ref ver repos = ROk u opts /\
+      (href = u_str u \/ href = u_str u ++ ".prov") /\
+      getter_get parse (apply_opts gopts0 (opts ++ [OOther])) href = GReq (Some c).
+  Proof.
+    unfold download_to. destruct (resolve parse url_equal lookup copts ref ver repos) as [|u opts] eqn:Er; [intros []|].
+    destruct (http_scheme (u_scheme u)); [|intros []].
+    unfold http_get. cbn [fst snd apply_opts fold_left].
+    fold (apply_opts gopts0 (opts ++ [OOther])).
+    destruct (getter_get parse (apply_opts gopts0 (opts ++ [OOther])) (u_str u)) as [|a] eqn:Eg.
+    - intros [H|[]]. discriminate.
+    - destruct (wp && ok).
+      + intros [H|[H|[]]].
+        * injection H as H1 H2. subst href a. exists u, opts. repeat split; auto.
+        * injection H as H1 H2. subst href. exists u, opts. repeat split; auto.
+      + intros [H|[]]. injection H as H1 H2. subst href a. exists u, opts. repeat split; auto.
+  Qed.
+
+  (* facts about net/url the scope theorems rest on (checked by the harness on every case):
+     String() re-parses to the same scheme and host; appending ".prov" to the string of a
+     URL that has a path leaves scheme and host alone *)
+  Hypothesis Hstr : forall s u, parse s = Some u -> so s (u_str u).
+  Hypothesis Hprov : forall s u, parse s = Some u -> nonempty (u_path u) = true -> so s (u_str u ++ ".prov").
+
+  (* who may receive a credential: its repository's origin, or anything if the pass-all
+     flag configured together with it is on *)
+  Definition repo_cred_ok (repos : list entry) (c : cred) (href : string) : Prop :=
+    exists rc, In rc repos /\ has_creds rc = true /\ c = Cred (e_user rc) (e_pass rc) (e_url rc) /\
+               (e_pass_all rc = true \/ so (e_url rc) href).
+  Definition caller_cred_ok (o0 : gopts) (c : cred) (href : string) : Prop :=
+    c = cred_of o0 /\ has_c o0 = true /\ (g_pass_all o0 = true \/ so (g_src o0) href).
+
+  (* ChartDownloader.DownloadTo: with the caller's options effective as o0, every request that
+     carries credentials carries either a repository entry's own (scoped to that entry) or
+     the caller's — and those stay in scope provided the caller configured them for the
+     reference (absolute reference) resp. for the named repository *)
+  Lemma download_to_scope copts ref ver repos wp ok href c :
+    let o0 := apply_opts gopts0 copts in
+    (has_c o0 = true -> g_pass_all o0 = false ->
+       forall u0, parse ref = Some u0 ->
+         if abs3 u0 then so (g_src o0) ref
+         else forall rn cn rc, split_slash (u_path u0) = Some (rn, cn) -> pick_by_name rn repos = Some rc ->
+                               g_src o0 = e_url rc) ->
+    In (href, GReq (Some c)) (download_to parse url_equal lookup copts ref ver repos wp ok) ->
+    caller_cred_ok o0 c href \/ repo_cred_ok repos c href.
+  Proof.
+    intros o0 Hcaller Hin.
+    apply download_to_requests in Hin as (u & opts & Er & Hhref & Hg).
+    apply resolve_branch in Er. fold o0 in Er.
+    apply getter_get_so in Hg as (Hc & Hhas & Hsc).
+    assert (Hpa : forall b, b = true \/ b = false) by (intros []; auto).
+    destruct Er as [Ep Ea Est | rc Hrc Hcr Est | rc Ep Ea Hrc Est | u0 rn cn rc Ep Ea Ess Epk Est];
+      rewrite Est in Hc, Hhas, Hsc; unfold cred_of, has_c in Hc, Hhas; cbn [g_user g_pass g_src g_url g_pass_all] in Hc, Hhas, Hsc.
+    - (* no owner repository: the getter URL is the reference itself *)
+      left. split; [exact Hc|]. split; [exact Hhas|].
+      destruct Hsc as [Hsc|Hsc]; [left; exact Hsc|].
+      destruct (Hpa (g_pass_all o0)) as [Hp|Hp]; [left; exact Hp|right].
+      specialize (Hcaller Hhas Hp u Ep). rewrite Ea in Hcaller. eapply so_trans; eauto.
+    - right. exists rc. repeat split; auto.
+    - (* an owner repository without credentials: the caller's credentials, scoped by the owner's URL *)
+      left. split; [exact Hc|]. split; [exact Hhas|].
+      destruct (Hpa (g_pass_all o0)) as [Hp|Hp]; [left; exact Hp|right].
+      specialize (Hcaller Hhas Hp u Ep). rewrite Ea in Hcaller.
+      eapply so_trans; [exact Hcaller|].
+      destruct Hhref as [->| ->]; [apply Hstr; exact Ep|apply Hprov; [exact Ep|]].
+      unfold abs3 in Ea. apply andb_true_iff in Ea as [_ Ea]. exact Ea.
+    - (* a named repository without credentials: the caller's, scoped by that repository's URL *)
+      left. split; [exact Hc|]. split; [exact Hhas|].
+      destruct Hsc as [Hsc|Hsc]; [left; exact Hsc|].
+      destruct (Hpa (g_pass_all o0)) as [Hp|Hp]; [left; exact Hp|right].
+      specialize (Hcaller Hhas Hp u0 Ep). rewrite Ea in Hcaller.
+      rewrite (Hcaller rn cn rc Ess Epk). exact Hsc.
+  Qed.
+
+  (* ChartRepository.DownloadIndexFile: the entry's credentials, scoped to the entry's URL *)
+  Lemma download_index_scope e href c :
+    In (href, GReq (Some c)) (download_index parse index_url e) ->
+    c = Cred (e_user e) (e_pass e) (e_url e) /\ has_creds e = true /\ (e_pass_all e = true \/ so (e_url e) href).
+  Proof.
+    unfold download_index. destruct (index_url (e_url e)) as [iu|]; [|intros []].
+    intros [H|[]]. injection H as <- H. unfold http_get in H. cbn [snd] in H.
+    apply getter_get_so in H as (Hc & Hh & Hs). cbn in Hc, Hh, Hs. auto.
+  Qed.
+
+  Lemma so_sym a b : so a b -> so b a.
+  Proof. intros (ua & ub & Ea & Eb & H). exists ub, ua. repeat split; auto. apply same_origin_sym. exact H. Qed.
+
+  (* ---------------------------------------------------------------- the call paths *)
+  (* FindChartInRepoURL and normalizeURL resolve against an absolute base: what they return
+     is an absolute URL with a host and a path (checked by the harness on every case) *)
+  Hypothesis Hfind : forall r n v cu u, find_in r n v = Some cu -> parse cu = Some u -> abs3 u = true.
+  Hypothesis Hdep : forall cr d n v cu u, dep_url cr d n v = Some cu -> parse cu = Some u -> abs3 u = true.
+  (* urlutil.Equal compares the serialised URLs after path cleaning: equal means same scheme and host *)
+  Hypothesis Hequal : forall a b ua, url_equal a b = true -> parse a = Some ua -> so a b.
+
+  (* the credentials given on the command line, as effective options *)
+  Definition cli_opts (c : cpo) (name : string) (repos : list entry) : gopts :=
+    mkOpts "" (c_user c) (c_pass c) (cmdline_src parse c name repos) (c_pass_all c).
+
+  Definition path_ok (c : cpo) (name : string) (repos : list entry) (cr : cred) (href : string) : Prop :=
+    caller_cred_ok (cli_opts c name repos) cr href \/ repo_cred_ok repos cr href.
+
+  Lemma caller_ok_transfer o0 o1 cr href :
+    caller_cred_ok o0 cr href -> g_user o0 = g_user o1 -> g_pass o0 = g_pass o1 -> g_src o0 = g_src o1 ->
+    g_pass_all o0 = g_pass_all o1 -> caller_cred_ok o1 cr href.
+  Proof.
+    unfold caller_cred_ok, cred_of, has_c. intros (Hc & Hh & Hs) E1 E2 E3 E4.
+    rewrite <- E1, <- E2, <- E3, <- E4. auto.
+  Qed.
+
+  Lemma cmdline_src_repo c name repos : nonempty (c_repo_url c) = true -> cmdline_src parse c name repos = c_repo_url c.
+  Proof. unfold cmdline_src. intros ->. reflexivity. Qed.
+
+  (* obligations of download_to_scope when the command-line credentials are passed on
+     without a --repo lookup *)
+  Lemma cmdline_obligation c name repos :
+    nonempty (c_repo_url c) = false ->
+    forall u0, parse name = Some u0 ->
+      if abs3 u0 then so (cmdline_src parse c name repos) name
+      else forall rn cn rc, split_slash (u_path u0) = Some (rn, cn) -> pick_by_name rn repos = Some rc ->
+                            cmdline_src parse c name repos = e_url rc.
+  Proof.
+    intros Hr u0 Ep. unfold cmdline_src. rewrite Hr, Ep. fold (abs3 u0).
+    destruct (abs3 u0) eqn:Ea.
+    - eapply so_refl; eauto.
+    - intros rn cn rc Ess Epk. rewrite Ess, Epk. reflexivity.
+  Qed.
+
+  Lemma locate_scope c name repos ok href cr :
+    In (href, GReq (Some cr)) (locate_chart parse url_equal lookup index_url find_in c name repos ok) ->
+    path_ok c name repos cr href.
+  Proof.
+    unfold locate_chart, path_ok. destruct (nonempty (c_repo_url c)) eqn:Hr.
+    - assert (Hidx : forall h x, In (h, GReq (Some x)) (download_index parse index_url (adhoc_entry (c_repo_url c) (c_user c) (c_pass c) (c_pass_all c))) ->
+                caller_cred_ok (cli_opts c name repos) x h).
+      { intros h x Hin. apply download_index_scope in Hin as (Hc & Hh & Hs). cbn in Hc, Hh, Hs.
+        unfold caller_cred_ok, cred_of, has_c, cli_opts. cbn. rewrite (cmdline_src_repo c name repos Hr). auto. }
+      destruct (find_in (c_repo_url c) name (c_version c)) as [chart_url|] eqn:Ef; [|intro H; left; eauto].
+      destruct (parse (c_repo_url c)) as [u1|] eqn:E1; [|intro H; left; eauto].
+      destruct (parse chart_url) as [u2|] eqn:E2; [|intro H; left; eauto].
+      intro H. apply in_app_or in H as [H|H]; [left; eauto|].
+      rewrite (cmdline_src_repo c name repos Hr) in H.
+      apply download_to_scope in H.
+      + destruct H as [H|H]; [left|right; exact H].
+        rewrite apply_opts_app in H. cbn in H.
+        destruct (c_pass_all c || same_origin u1 u2) eqn:Eo; cbn in H.
+        * eapply caller_ok_transfer; [exact H| | | |]; cbn; auto. rewrite (cmdline_src_repo c name repos Hr). reflexivity.
+        * destruct H as (_ & Hh & _). cbn in Hh. discriminate.
+      + rewrite apply_opts_app. cbn.
+        destruct (c_pass_all c || same_origin u1 u2) eqn:Eo; cbn; [|intros Hh; discriminate].
+        intros _ Hpa u0 Ep. rewrite E2 in Ep. injection Ep as <-.
+        rewrite (Hfind _ _ _ _ _ Ef E2). rewrite Hpa in Eo. simpl in Eo.
+        exists u1, u2. auto.
+    - intro H. apply download_to_scope in H.
+      + destruct H as [H|H]; [left|right; exact H].
+        rewrite apply_opts_app in H. cbn in H.
+        eapply caller_ok_transfer; [exact H| | | |]; reflexivity.
+      + rewrite apply_opts_app. cbn. intros _ _. apply cmdline_obligation. exact Hr.
+  Qed.
+
+  Lemma pull_scope c name repos wp ok href cr :
+    In (href, GReq (Some cr)) (pull parse url_equal lookup index_url find_in c name repos wp ok) ->
+    path_ok c name repos cr href.
+  Proof.
+    unfold pull, path_ok. destruct (nonempty (c_repo_url c)) eqn:Hr.
+    - assert (Hidx : forall h x, In (h, GReq (Some x)) (download_index parse index_url (adhoc_entry (c_repo_url c) (c_user c) (c_pass c) (c_pass_all c))) ->
+                caller_cred_ok (cli_opts c name repos) x h).
+      { intros h x Hin. apply download_index_scope in Hin as (Hc & Hh & Hs). cbn in Hc, Hh, Hs.
+        unfold caller_cred_ok, cred_of, has_c, cli_opts. cbn. rewrite (cmdline_src_repo c name repos Hr). auto. }
+      destruct (find_in (c_repo_url c) name (c_version c)) as [chart_url|] eqn:Ef; [|intro H; left; eauto].
+      destruct (parse (c_repo_url c)) as [u1|] eqn:E1; [|intro H; left; eauto].
+      destruct (parse chart_url) as [u2|] eqn:E2; [|intro H; left; eauto].
+      intro H. apply in_app_or in H as [H|H]; [left; eauto|].
+      rewrite (cmdline_src_repo c name repos Hr) in H.
+      apply download_to_scope in H.
+      + destruct H as [H|H]; [left|right; exact H].
+        rewrite apply_opts_app in H.
+        destruct (negb (c_pass_all c) && negb (same_origin u1 u2)) eqn:Eo; cbn in H.
+        * destruct H as (_ & Hh & _). cbn in Hh. discriminate.
+        * eapply caller_ok_transfer; [exact H| | | |]; cbn; auto. rewrite (cmdline_src_repo c name repos Hr). reflexivity.
+      + rewrite apply_opts_app.
+        destruct (negb (c_pass_all c) && negb (same_origin u1 u2)) eqn:Eo; cbn; [intros Hh; discriminate|].
+        intros _ Hpa u0 Ep. rewrite E2 in Ep. injection Ep as <-.
+        rewrite (Hfind _ _ _ _ _ Ef E2). rewrite Hpa in Eo. simpl in Eo. apply negb_false_iff in Eo.
+        exists u1, u2. auto.
+    - intro H. apply download_to_scope in H.
+      + destruct H as [H|H]; [left|right; exact H].
+        cbn in H. eapply caller_ok_transfer; [exact H| | | |]; reflexivity.
+      + cbn. intros _ _. apply cmdline_obligation. exact Hr.
+  Qed.
+
+  (* dependency download: only repository entries' own credentials, each within its scope *)
+  Lemma manager_scope dep_repo name ver repos wp ok href cr :
+    In (href, GReq (Some cr)) (manager_dep parse url_equal lookup index_url find_in dep_url dep_repo name ver repos wp ok) ->
+    repo_cred_ok repos cr href.
+  Proof.
+    unfold manager_dep, manager_dep_gen.
+    destruct (find_repo url_equal dep_repo repos) as [cr0|] eqn:Efr.
+    - apply find_repo_In in Efr as [Hin Heq].
+      destruct (dep_url cr0 dep_repo name ver) as [churl|] eqn:Ed; [|intros []].
+      destruct (scoped_creds parse dep_repo churl (e_user cr0) (e_pass cr0) (e_pass_all cr0)) as [us pw] eqn:Esc.
+      intro H. apply download_to_scope in H.
+      + destruct H as [H|H]; [|exact H]. cbn in H. destruct H as (Hc & Hh & Hs). unfold has_c in Hh. cbn in Hc, Hh, Hs.
+        assert (us = e_user cr0 /\ pw = e_pass cr0) as [-> ->].
+        { unfold scoped_creds in Esc.
+          destruct (negb (e_pass_all cr0) && (nonempty (e_user cr0) || nonempty (e_pass cr0))).
+          - destruct (parse dep_repo); [destruct (parse churl); [destruct (same_origin _ _)|]|];
+              injection Esc as <- <-; auto; discriminate.
+          - injection Esc as <- <-. auto. }
+        exists cr0. repeat split; auto.
+      + cbn. unfold has_c. cbn. intros Hh Hpa u0 Ep. rewrite (Hdep _ _ _ _ _ _ Ed Ep).
+        unfold scoped_creds in Esc. rewrite Hpa in Esc. cbn in Esc.
+        destruct (nonempty (e_user cr0) || nonempty (e_pass cr0)) eqn:Ene.
+        * destruct (parse dep_repo) as [u1|] eqn:E1; [|injection Esc as <- <-; discriminate].
+          rewrite Ep in Esc. destruct (same_origin u1 u0) eqn:Eso; [|injection Esc as <- <-; discriminate].
+          apply so_trans with dep_repo.
+          -- apply so_sym. eapply Hequal; eauto.
+          -- exists u1, u0. auto.
+        * injection Esc as <- <-. apply orb_false_iff in Ene as [E _]. rewrite E in Hh. discriminate.
+    - assert (Hidx : forall h x, ~ In (h, GReq (Some x)) (download_index parse index_url (adhoc_entry dep_repo "" "" false))).
+      { intros h x Hin. apply download_index_scope in Hin as (_ & Hh & _). discriminate. }
+      destruct (find_in dep_repo name ver) as [churl|]; [|intro H; exfalso; eapply Hidx; eauto].
+      intro H. apply in_app_or in H as [H|H]; [exfalso; eapply Hidx; eauto|].
+      apply download_to_scope in H.
+      + destruct H as [H|H]; [|exact H]. destruct H as (_ & Hh & _). discriminate.
+      + cbn. intros Hh. discriminate.
+  Qed.
+End Scope.
+
+(* ================================================================== refutations and examples *)
+(* A table-driven URL parser for the examples: scheme://host/path, host = up to the first '/' *)
+Definition ex_urls : list (string * url) :=
+  [ ("https://private.corp.test/charts", mkUrl "https" "private.corp.test" "/charts" None "https://private.corp.test/charts");
+    ("https://private.corp.test/charts/index.yaml", mkUrl "https" "private.corp.test" "/charts/index.yaml" None "https://private.corp.test/charts/index.yaml");
+    ("https://private.corp.test/charts/a-1.0.0.tgz", mkUrl "https" "private.corp.test" "/charts/a-1.0.0.tgz" None "https://private.corp.test/charts/a-1.0.0.tgz");
+    ("https://public.example/charts", mkUrl "https" "public.example" "/charts" None "https://public.example/charts");
+    ("https://public.example/charts/a-1.0.0.tgz", mkUrl "https" "public.example" "/charts/a-1.0.0.tgz" None "https://public.example/charts/a-1.0.0.tgz");
+    ("https://public.example/charts/a-1.0.0.tgz.prov", mkUrl "https" "public.example" "/charts/a-1.0.0.tgz.prov" None "https://public.example/charts/a-1.0.0.tgz.prov");
+    ("https://cdn.other.test/a-1.0.0.tgz", mkUrl "https" "cdn.other.test" "/a-1.0.0.tgz" None "https://cdn.other.test/a-1.0.0.tgz");
+    ("private/a", mkUrl "" "" "private/a" None "private/a");
+    ("", mkUrl "" "" "" None "") ].
+Definition ex_parse (s : string) : option url :=
+  (fix go (l : list (string * url)) := match l with [] => None | (k, u) :: t => if String.eqb k s then Some u else go t end) ex_urls.
+Definition ex_index_url (s : string) : option string := Some (s ++ "/index.yaml").
+
+Definition ex_public := mkEntry "public" "https://public.example/charts" "" "" false [("a", "1.0.0", ["https://public.example/charts/a-1.0.0.tgz"])].
+Definition ex_private := mkEntry "private" "https://private.corp.test/charts" "user-private" "pw-private" false
+                                 [("a", "1.0.0", ["https://public.example/charts/a-1.0.0.tgz"])].
+
+(* K (repaired, 0ca3ebf): before the repair a dependency on the private repository whose index
+   lists an absolute URL that an earlier credential-less repository lists too sent the
+   private credentials to the other host *)
+Lemma manager_unrepaired_refuted :
+  In ("https://public.example/charts/a-1.0.0.tgz", GReq (Some (Cred "user-private" "pw-private" "https://private.corp.test/charts")))
+     (manager_dep_unrepaired ex_parse String.eqb (fun _ _ _ => None) ex_index_url (fun _ _ _ => None)
+        (fun _ _ _ _ => Some "https://public.example/charts/a-1.0.0.tgz")
+        "https://private.corp.test/charts" "a" "1.0.0" [ex_public; ex_private] false true).
+Proof. vm_compute. left. reflexivity. Qed.
+
+Lemma manager_repaired_example :
+  manager_dep ex_parse String.eqb (fun _ _ _ => None) ex_index_url (fun _ _ _ => None)
+        (fun _ _ _ _ => Some "https://public.example/charts/a-1.0.0.tgz")
+        "https://private.corp.test/charts" "a" "1.0.0" [ex_public; ex_private] false true
+  = [("https://public.example/charts/a-1.0.0.tgz", GReq None)].
+Proof. vm_compute. reflexivity. Qed.
+
+Definition ex_cpo := mkCpo "https://private.corp.test/charts" "user-cli" "pw-cli" false "" false.
+
+(* (repaired, 6d7787e): helm pull --repo sent the command-line credentials to a chart URL on another host *)
+Lemma pull_unrepaired_refuted :
+  In ("https://cdn.other.test/a-1.0.0.tgz", GReq (Some (Cred "user-cli" "pw-cli" "https://private.corp.test/charts")))
+     (pull_unrepaired ex_parse String.eqb (fun _ _ _ => None) ex_index_url (fun _ _ _ => Some "https://cdn.other.test/a-1.0.0.tgz")
+        ex_cpo "a" [] false true).
+Proof. vm_compute. right. left. reflexivity. Qed.
+
+Lemma pull_repaired_example :
+  pull ex_parse String.eqb (fun _ _ _ => None) ex_index_url (fun _ _ _ => Some "https://cdn.other.test/a-1.0.0.tgz") ex_cpo "a" [] false true
+  = [("https://private.corp.test/charts/index.yaml", GReq (Some (Cred "user-cli" "pw-cli" "https://private.corp.test/charts")));
+     ("https://cdn.other.test/a-1.0.0.tgz", GReq None)]
+  /\ locate_chart ex_parse String.eqb (fun _ _ _ => None) ex_index_url (fun _ _ _ => Some "https://cdn.other.test/a-1.0.0.tgz") ex_cpo "a" [] true
+  = [("https://private.corp.test/charts/index.yaml", GReq (Some (Cred "user-cli" "pw-cli" "https://private.corp.test/charts")));
+     ("https://cdn.other.test/a-1.0.0.tgz", GReq None)].
+Proof. vm_compute. split; reflexivity. Qed.
+
+(* the hypotheses of the scope theorems hold of the example parser, and a credentialed
+   request does occur: a named reference to the private repository *)
+Lemma ex_hypotheses :
+  (forall s u, ex_parse s = Some u -> so ex_parse s (u_str u)) /\
+  (forall a b ua, String.eqb a b = true -> ex_parse a = Some ua -> so ex_parse a b).
+Proof.
+  split.
+  - intros s u H. assert (E : u_str u = s).
+    { unfold ex_parse, ex_urls in H.
+      repeat (match type of H with
+              | (if String.eqb ?k s then _ else _) = _ =>
+                  let Q := fresh "Q" in
+                  destruct (String.eqb k s) eqn:Q;
+                  [apply String.eqb_eq in Q; subst s; injection H as H; subst u; reflexivity|]
+              end).
+      discriminate. }
+    rewrite E. exists u, u. repeat split; auto. apply same_origin_refl.
+  - intros a b ua E H. apply String.eqb_eq in E. subst b. exists ua, ua. repeat split; auto. apply same_origin_refl.
+Qed.
+
+Example paths_example :
+  download_to ex_parse String.eqb (fun _ _ _ => Some "https://private.corp.test/charts/a-1.0.0.tgz") [] "private/a" "" [ex_public; ex_private] false true
+  = [("https://private.corp.test/charts/a-1.0.0.tgz", GReq (Some (Cred "user-private" "pw-private" "https://private.corp.test/charts")))]
+  /\ download_to ex_parse String.eqb (fun _ _ _ => Some "https://cdn.other.test/a-1.0.0.tgz") [] "private/a" "" [ex_public; ex_private] false true
+  = [("https://cdn.other.test/a-1.0.0.tgz", GReq None)].
+Proof. vm_compute. split; reflexivity. Qed.
+
+(* all call paths in one statement (Props/C19.v) *)
+Lemma paths_scope :
+  forall (parse : string -> option url) (url_equal : string -> string -> bool)
+         (lookup : entry -> string -> string -> option string) (index_url : string -> option string)
+         (find_in : string -> string -> string -> option string)
+         (dep_url : entry -> string -> string -> string -> option string),
+    (forall s u, parse s = Some u -> so parse s (u_str u)) ->
+    (forall s u, parse s = Some u -> nonempty (u_path u) = true -> so parse s (u_str u ++ ".prov")) ->
+    (forall r n v cu u, find_in r n v = Some cu -> parse cu = Some u -> abs3 u = true) ->
+    (forall cr d n v cu u, dep_url cr d n v = Some cu -> parse cu = Some u -> abs3 u = true) ->
+    (forall a b ua, url_equal a b = true -> parse a = Some ua -> so parse a b) ->
+    (forall e href c, In (href, GReq (Some c)) (download_index parse index_url e) ->
+       c = Cred (e_user e) (e_pass e) (e_url e) /\ has_creds e = true /\ (e_pass_all e = true \/ so parse (e_url e) href))
+    /\ (forall copts ref ver repos wp ok href c,
+          (has_c (apply_opts gopts0 copts) = true -> g_pass_all (apply_opts gopts0 copts) = false ->
+           forall u0, parse ref = Some u0 ->
+             if abs3 u0 then so parse (g_src (apply_opts gopts0 copts)) ref
+             else forall rn cn rc, split_slash (u_path u0) = Some (rn, cn) -> pick_by_name rn repos = Some rc ->
+                                   g_src (apply_opts gopts0 copts) = e_url rc) ->
+          In (href, GReq (Some c)) (download_to parse url_equal lookup copts ref ver repos wp ok) ->
+          caller_cred_ok parse (apply_opts gopts0 copts) c href \/ repo_cred_ok parse repos c href)
+    /\ (forall c name repos ok href cr,
+          In (href, GReq (Some cr)) (locate_chart parse url_equal lookup index_url find_in c name repos ok) ->
+          caller_cred_ok parse (cli_opts parse c name repos) cr href \/ repo_cred_ok parse repos cr href)
+    /\ (forall c name repos wp ok href cr,
+          In (href, GReq (Some cr)) (pull parse url_equal lookup index_url find_in c name repos wp ok) ->
+          caller_cred_ok parse (cli_opts parse c name repos) cr href \/ repo_cred_ok parse repos cr href)
+    /\ (forall dep_repo name ver repos wp ok href cr,
+          In (href, GReq (Some cr)) (manager_dep parse url_equal lookup index_url find_in dep_url dep_repo name ver repos wp ok) ->
+          repo_cred_ok parse repos cr href).
+Proof.
+  intros parse url_equal lookup index_url find_in dep_url Hstr Hprov Hfind Hdep Hequal.
+  split; [|split; [|split; [|split]]].
+  - intros e href c. apply download_index_scope.
+  - intros copts ref ver repos wp ok href c. apply download_to_scope; assumption.
+  - intros c name repos ok href cr. apply (locate_scope parse url_equal lookup index_url find_in Hstr Hprov Hfind).
+  - intros c name repos wp ok href cr. apply (pull_scope parse url_equal lookup index_url find_in Hstr Hprov Hfind).
+  - intros dep_repo name ver repos wp ok href cr.
+    apply (manager_scope parse url_equal lookup index_url find_in dep_url Hstr Hprov Hdep Hequal).
+Qed.
